@@ -445,3 +445,161 @@ pub fn systematic_runs(verif_seed: u64) -> Vec<RunSpec> {
 pub fn default_cfg() -> Cfg {
     Cfg::default()
 }
+
+// ---------------------------------------------------------------------------------------
+// Scenario episodes: situations that the random episodes reach only by luck of the seed, made certain.
+// Each is one process lifetime (a list of runs executed in order in one worker).
+// ---------------------------------------------------------------------------------------
+
+pub const SCENARIO_BASE: u64 = 10_000_000;
+pub const SCENARIOS: u64 = 4;
+
+fn plain_build(cases: Vec<String>, setters: Vec<Setter>) -> Vec<Op> {
+    let mut ops = vec![Op::New { slot: 0, cases }];
+    for s in setters {
+        ops.push(Op::Set { slot: 0, setter: s });
+    }
+    ops.push(Op::Build { slot: 0 });
+    ops
+}
+
+fn spec(clients: Vec<Vec<Op>>, rng: &mut Rng, sites: Vec<String>, policy: &str) -> RunSpec {
+    RunSpec {
+        clients: clients
+            .into_iter()
+            .map(|ops| ClientSpec { hash_seed: rng.next_u64(), ops })
+            .collect(),
+        sites,
+        sched: SchedSpec::Policy { policy: policy.into(), switch_pct: 100, pct_depth: 2, seed: rng.next_u64() },
+        mailboxes: 0,
+    }
+}
+
+pub fn scenario_runs(k: u64, verif_seed: u64) -> Vec<RunSpec> {
+    let mut rng = Rng::new(derive(verif_seed, &[0x5343454E, k]));
+    const LETTERS: &[&str] = &[
+        "a", "b", "c", "d", "e", "f", "g", "h", "i", "j", "k", "l", "m", "n", "o", "p", "q", "r", "s", "t", "u", "v", "w", "x", "y", "z",
+    ];
+    let words = |rng: &mut Rng, n: usize, len: u64, alpha: &[&str]| -> Vec<String> {
+        let mut set = BTreeSet::new();
+        let mut tries = 0;
+        while set.len() < n && tries < n * 4 {
+            tries += 1;
+            set.insert((0..len).map(|_| *rng.pick(alpha)).collect::<String>());
+        }
+        set.into_iter().collect()
+    };
+    match k {
+        // S0 overlapping large builds: four clients build large automata and are parked inside build() at
+        // every site, round robin, so that all of them hold their intermediate structures at the same time
+        0 => {
+            let mut runs = vec![];
+            for n in [200usize, 300] {
+                let w = words(&mut rng, n, 6, LETTERS);
+                let clients = (0..4)
+                    .map(|i| {
+                        let mut p = w.clone();
+                        rng.shuffle(&mut p);
+                        plain_build(p, if i % 2 == 1 { vec![Setter::Capture] } else { vec![] })
+                    })
+                    .collect();
+                runs.push(spec(clients, &mut rng, vec!["*".into()], "round-robin"));
+            }
+            runs
+        }
+        // S1 size thresholds: hundreds of distinct test cases (with and without repetition conversion), and
+        // short sets whose lists are long only through duplicates, each under two presentations on two clients
+        1 => {
+            let mut runs = vec![];
+            for (n, rep) in [(70usize, true), (130, true), (300, false), (300, true), (600, false), (1100, false)] {
+                let w = words(&mut rng, n, 4, &LETTERS[..6]);
+                let setters = if rep { vec![Setter::Repetitions] } else { vec![] };
+                let mut p2 = w.clone();
+                rng.shuffle(&mut p2);
+                let mut p3 = w.clone();
+                p3.reverse();
+                runs.push(spec(
+                    vec![plain_build(w.clone(), setters.clone()), plain_build(p2, setters.clone()), plain_build(p3, setters)],
+                    &mut rng,
+                    vec![],
+                    "random",
+                ));
+            }
+            for target in [300usize, 520, 1100, 2100, 4200] {
+                let base = words(&mut rng, 6, 3, &LETTERS[..4]);
+                let mut padded = base.clone();
+                while padded.len() < target {
+                    let x = rng.pick(&base).clone();
+                    padded.push(x);
+                }
+                rng.shuffle(&mut padded);
+                let mut rot = padded.clone();
+                rot.rotate_left(target / 3);
+                runs.push(spec(
+                    vec![plain_build(padded, vec![Setter::Repetitions, Setter::NoAnchors]), plain_build(rot, vec![Setter::Repetitions, Setter::NoAnchors]), plain_build(base, vec![Setter::Repetitions, Setter::NoAnchors])],
+                    &mut rng,
+                    vec![],
+                    "random",
+                ));
+            }
+            runs
+        }
+        // S2 character churn: one process formats several hundred distinct characters as class members (runs of
+        // neighbouring code points), then meets the first ones again
+        2 => {
+            let mut runs = vec![];
+            let mut first: Option<Vec<String>> = None;
+            for i in 0..60u32 {
+                let start = 0x0100 + i * 7;
+                let mut set: Vec<String> = (0..6).filter_map(|j| char::from_u32(start + j)).map(|c| c.to_string()).collect();
+                set.push(char::from_u32(0x0400 + i * 3).unwrap_or('x').to_string());
+                if first.is_none() {
+                    first = Some(set.clone());
+                }
+                runs.push(spec(vec![plain_build(set, vec![])], &mut rng, vec![], "random"));
+                if i % 20 == 19 {
+                    runs.push(spec(vec![plain_build(first.clone().unwrap(), vec![])], &mut rng, vec![], "random"));
+                }
+            }
+            runs
+        }
+        // S3 a long-lived thread: one client thread performs 600 builds, alternating between conversion
+        // configurations on tiny inputs that share characters (per-thread state, counters, epochs)
+        _ => {
+            let masks: Vec<Vec<Setter>> = vec![
+                vec![Setter::Digits],
+                vec![Setter::Words],
+                vec![Setter::Digits, Setter::NonWords],
+                vec![Setter::Spaces, Setter::NonDigits],
+                vec![],
+                vec![Setter::Words, Setter::Repetitions],
+            ];
+            let inputs: Vec<Vec<String>> = vec![
+                vec!["x1".into(), "y2".into()],
+                vec!["a b".into(), "c1".into()],
+                vec!["x1".into(), "y2".into(), "z_".into()],
+            ];
+            let mut ops = vec![];
+            for i in 0..600usize {
+                // the mask changes at every build, with a period that is not a divisor of 256
+                let m = &masks[i % masks.len().min(if i % 7 == 0 { 2 } else { masks.len() })];
+                let input = &inputs[i % inputs.len()];
+                ops.push(Op::New { slot: i, cases: input.clone() });
+                for st in m {
+                    ops.push(Op::Set { slot: i, setter: st.clone() });
+                }
+                ops.push(Op::Build { slot: i });
+            }
+            // exactly two masks in strict alternation for 520 builds: 256*k switches between equal uses
+            for i in 600..1120usize {
+                let m = if i % 2 == 0 { vec![Setter::Digits] } else { vec![Setter::Words] };
+                ops.push(Op::New { slot: i, cases: inputs[0].clone() });
+                for st in m {
+                    ops.push(Op::Set { slot: i, setter: st });
+                }
+                ops.push(Op::Build { slot: i });
+            }
+            vec![spec(vec![ops], &mut rng, vec![], "run-to-completion")]
+        }
+    }
+}
